@@ -12,7 +12,7 @@ for d in sys.argv[1:]:
     meta = json.load(open(os.path.join(d, 'meta.json')))
     # second-round seeds live under /tmp/seed2/<Cnn>/m<k>: keep them apart from the first round's
     rnd = ''
-    for k in ('2', '3', '4', '5'):
+    for k in ('2', '3', '4', '5', '6'):
         if os.sep + 'seed' + k + os.sep in d:
             rnd = 'r' + k
     sid = '%s-%s%s' % (meta['property'], rnd, os.path.basename(d))
